@@ -724,8 +724,12 @@ class MembersType(StandardEncodeMixin, StandardDecodeMixin, Type):
                                        encoded_addition)
 
                 encoded_members.extend(encoded_addition)
-        except EncodeError:
-            pass
+        except EncodeError as e:
+            # A missing addition ends the additions (a value of an
+            # older version of the type). An error within a present
+            # addition is an error.
+            if e.location:
+                raise
 
     def encode_member(self, member, data, encoded_members):
         name = member.name
